@@ -1,11 +1,12 @@
 HOOK_COMMITS = ["358b29f", "6cd9f5c", "5546540"]
+FIX_COMMITS = ["923416a"]
 
 NOTES = ("All checks are ./check <id> --tier quick|thorough (runner/vrunner.py). Every engine is rebuilt "
          "incrementally from /repo's working tree with the hook guard on. Oracle = independent spec model "
          "spec/b3spec (anchored against a second Python model and the published vectors on every run).")
 
 ENGINES_DOC = [
-    {"name": "core", "path": "engines/core", "serves_properties": ["C01"],
+    {"name": "core", "path": "engines/core", "serves_properties": ["C01", "C02", "C10"],
      "kind_free_text": "Rust; drives the real blake3 crate (path dependency on /repo) with forced SIMD levels; bounded-exhaustive enumeration and explicit-state BFS over the real Hasher/OutputReader"},
 ]
 
@@ -18,6 +19,19 @@ CHECKS = {
         "text": "Every input length in a contiguous range plus a lattice around every block/chunk/SIMD-batch/power-of-two boundary, for three modes, several keys/contexts, two content streams and every SIMD level the CPU has, is hashed by the real one-shot functions (debug assertions and overflow checks on) and compared with an independent executable model of the BLAKE3 paper. Exhaustive over the stated shape space; not a proof for other contents or longer inputs.",
         "note": "Trusted: b3spec (anchored on each run against a second Python model and the 105 published vectors), the H1 detect() override hook. Content restricted to two streams.",
     },
+}
+
+CHECKS["C02"] = {
+    "engine": "core/hasher_bfs", "category": "model_checking", "design_ref": "DESIGN.md 3/C02",
+    "technique": "explicit-state BFS over the real Hasher with full-state fingerprint merging; spec oracle in every state",
+    "text": "Breadth-first search drives the real Hasher (three modes, every SIMD level) with every update size of a fine alphabet (all paths up to a byte total) and a coarse chunk-multiple alphabet (deviation-bounded), merging histories only when every field of the state is identical. In every reachable state count(), finalize, finalize_xof at three positions and finalize_non_root are compared with the independent spec model, queries are checked pure and idempotent, clones independent in both directions, and on every transition Write::write / update_reader (and update_rayon in the rayon build) must produce the same state as update. Every transition is executed on the implementation.",
+    "note": "Trusted: b3spec; H4 state-copy hook (exhaustive destructuring); 128-bit state fingerprint. Bounds: fine total <= 5 (quick) / 9 (thorough) chunks; coarse <= 70 / 300 chunks with <= 2 / 3 deviations.",
+}
+CHECKS["C10"] = {
+    "engine": "core/hasher_bfs", "category": "model_checking", "design_ref": "DESIGN.md 3/C10",
+    "technique": "explicit-state BFS over the real Hasher with reset and set_input_offset as operations; differential oracle = freshly constructed hasher",
+    "text": "The C02 state space extended with reset() from every reachable state and set_input_offset at count()==0 for offsets up to 2^42. Every post-reset state must equal, field for field, a newly constructed hasher of the same mode (and therefore merges with the initial state and is explored again); clone independence is checked on every state in both directions.",
+    "note": "Trusted: b3spec, H4 hook. Offsets limited to {1024, 3072, 4096, 65536, 2^42, 2^42+2048}.",
 }
 
 NOT_APPLICABLE = {("C%02d" % i): PENDING for i in range(1, 19)}
